@@ -332,7 +332,7 @@ pub fn checks() -> Vec<CheckSpec> {
             CLIENT_REAL, CLIENT_STUB,
             &["tokio/futures channel primitives are linearizable", "transport delivers in order (reordering is injected in the peer's behaviour)"]),
         spec("C02", "exploration",
-            vec![gen("client.general", 2, g_client_general), gen("client.abandon", 1, g_client_abandon), gen("client.shutdown", 1, g_client_shutdown), gen("client.deadlines", 2, g_client_deadlines), gen("client.independent", 1, g_client_independent)],
+            vec![gen("client.general", 2, g_client_general), gen("client.abandon", 1, g_client_abandon), gen("client.shutdown", 1, g_client_shutdown), gen("client.deadlines", 2, g_client_deadlines), gen("client.independent", 1, g_client_independent), gen("client.long", 1, g_client_long)],
             q, t,
             "strict wake-only scheduling: a task is polled only after its waker fired; every call has a finite deadline below the horizon; hang = call still pending at quiescence; non-trivial = a fault/probe fired; distinct = interleaving signature",
             CLIENT_REAL, CLIENT_STUB,
@@ -354,13 +354,13 @@ pub fn checks() -> Vec<CheckSpec> {
             CLIENT_REAL, CLIENT_STUB,
             &["timer granularity 1 ms modelled as 2 ms slack"]),
         spec("C06", "exploration",
-            vec![gen("server.deadlines", 30, g_server_deadlines), gen("server.general", 10, g_server_general), gen("server.limit", 10, g_server_limit), gen("server.long", 1, g_server_long)],
+            vec![gen("server.deadlines", 30, g_server_deadlines), gen("server.general", 10, g_server_general), gen("server.limit", 10, g_server_limit), gen("server.long", 1, g_server_long), gen("bytes.adversary", 1, g_bytes_adversary)],
             q, t,
             "request deadlines {expired,0,1,2,5,10,20,50 ms} x handlers finishing at D-2..D+1/never x limit on/off x sink stalls; virtual clock",
             SERVER_REAL, SERVER_STUB,
             &["timer granularity 1 ms modelled as 2 ms slack"]),
         spec("C07", "exploration",
-            vec![gen("bytes.roundtrip", 2, g_bytes_roundtrip), gen("server.general", 1, g_server_general), gen("server.deadlines", 1, g_server_deadlines), gen("e2e.deadlines", 3, g_e2e_deadlines), gen("e2e.general", 1, g_e2e_general), gen("client.general", 1, g_client_general), gen("stubs.retry", 1, g_stubs_retry)],
+            vec![gen("bytes.roundtrip", 2, g_bytes_roundtrip), gen("server.general", 1, g_server_general), gen("server.deadlines", 1, g_server_deadlines), gen("e2e.deadlines", 3, g_e2e_deadlines), gen("e2e.general", 1, g_e2e_general), gen("client.general", 1, g_client_general), gen("stubs.retry", 1, g_stubs_retry), gen("bytes.adversary", 1, g_bytes_adversary)],
             q / 6, t / 6,
             "request deadlines 0 ms .. 1 h (including already expired at encode time) through JSON and bincode over a SimPipe with virtual latency and through the in-memory transport; the decoded / handler-observed deadline is compared with the caller's deadline and the measured transit time; JSON requests that omit the deadline must get decode time + 10 s",
             &["tarpc::context deadline (de)serialisation, serde_transport, wire types (real)", "BaseChannel / Requests / execute passing the request context to the handler (real)"],
